@@ -194,6 +194,10 @@ def _required_cfi_directives(
                 # the procedure's initial state (they come from the CIE), not
                 # a side effect of the instructions being deleted.
                 procedure_directives.append(directive)
+            elif not block.size:
+                # No instruction goes away with an empty block: what its
+                # directives say holds for the code behind it.
+                append_to.append(directive)
 
     results.extend(procedure_directives)
     return results
